@@ -19,6 +19,7 @@
 #include "Util/SelectionRule.h"
 #include "Util/CompInfo.h"
 #include "Util/SimpleRandom.h"
+#include "Util/VerifHooks.h"
 #include "MatOp/internal/ArnoldiOp.h"
 #include "LinAlg/UpperHessenbergQR.h"
 #include "LinAlg/DoubleShiftQR.h"
@@ -420,19 +421,24 @@ public:
         // The m-step Arnoldi factorization
         m_fac.factorize_from(1, m_ncv, m_nmatop);
         retrieve_ritzpair(selection);
+        SPECTRA_VERIF_EVENT("eigs.start", this, m_ncv, m_nmatop);
         // Restarting
         Index i, nconv = 0, nev_adj;
         for (i = 0; i < maxit; i++)
         {
             nconv = num_converged(tol);
+            SPECTRA_VERIF_EVENT("eigs.conv", this, i, nconv);
             if (nconv >= m_nev)
                 break;
 
             nev_adj = nev_adjusted(nconv);
+            SPECTRA_VERIF_EVENT("eigs.adjust", this, nconv, nev_adj);
             restart(nev_adj, selection);
+            SPECTRA_VERIF_EVENT("eigs.restart", this, i, nev_adj);
         }
         // Sorting results
         sort_ritzpair(sorting);
+        SPECTRA_VERIF_EVENT("eigs.sorted", this, i, nconv);
 
         m_niter += i + 1;
         m_info = (nconv >= m_nev) ? CompInfo::Successful : CompInfo::NotConverging;
